@@ -459,7 +459,7 @@ func (e *Engine) solveAll(obs []*Oblig, dir string, t1, t2 int, workers int) {
 			retry = append(retry, o)
 		}
 	}
-	if len(retry) == 0 || len(retry) > 8 {
+	if len(retry) == 0 || len(retry) > 8 || e.noRetry {
 		// many failures at once mean the code changed shape, not that the machine was busy
 		return
 	}
